@@ -55,6 +55,9 @@ def main():
                 entry["repeat_same"] = (ret2 == ret)
                 ret3 = W(None, fm).transform()              # without a file
                 entry["nofile_same"] = (ret3 == ret)
+                import live
+                ret4 = W(None, spec.build_fm(m, mode=live.PLAIN)).transform()   # another object, same content
+                entry["same_content_same_text"] = (ret4 == ret)
                 try:
                     data.decode("utf-8")
                     entry["utf8"] = True
